@@ -82,16 +82,17 @@ example : Gen.Names.check_name "uInt7".toList = .error (.other "InvalidNameError
   simp only [(C05.gen_name_rule _).1]
   decide
 
-/-- The generated table of disallowed names - plain words and the regular expressions parsed from the source, matched with the
+/-- The generated table of disallowed names (`Gen.Names.reserved`: every entry of the module-level tables `check_name` consults
+    through `in`, a loop or a comprehension, in the order of first use) - plain words and the regular expressions parsed from the source, matched with the
     semantics of `Pattern.match` (`Py.Rx.pyMatch`, final `$` included) - hits a name of valid characters exactly when the name is
     `Reserved`: one of the words, or in the language of one of `void\d*`, `u?int\d*`, `float\d*`, `u?q\d+_\d+`, `com\d`, `lpt\d`,
     `_.*_` (spelled out as concatenations in `Rules.Reserved`). -/
 theorem C05.gen_reserved_table (n : List Char) (h : ∀ c ∈ n, validCont c = true) :
-    Gen.Names.DISALLOWED_NAME_PATTERNS.any (Bridge.Names.hits n) = true ↔ Reserved n := by
+    Gen.Names.reserved.any (Bridge.Names.hits n) = true ↔ Reserved n := by
   rw [Bridge.Names.table_any n h]; exact reserved_iff n
 
 example : Reserved "uq16_8".toList ∧ (∀ c ∈ "uq16_8".toList, validCont c = true) ∧
-    Gen.Names.DISALLOWED_NAME_PATTERNS.any (Bridge.Names.hits "uq16_8".toList) = true :=
+    Gen.Names.reserved.any (Bridge.Names.hits "uq16_8".toList) = true :=
   have h : ∀ c ∈ "uq16_8".toList, validCont c = true := by decide
   have r : Reserved "uq16_8".toList := (reserved_iff _).mp (by decide)
   ⟨r, h, (C05.gen_reserved_table _ h).mpr r⟩
